@@ -77,6 +77,37 @@ func randForest(rng *rand.Rand, p genParams) []*rtree {
 		depth[t] = 1
 		budget--
 	}
+	// one time in four: a WIDE node (9..16 children) whose later children repeat names first used late
+	// among its children, each repeat followed by a child of its own (merging must find the first one)
+	if rng.Intn(4) == 0 && budget > 12 {
+		par := all[rng.Intn(len(all))]
+		if depth[par] < p.MaxDepth-1 {
+			w := 9 + rng.Intn(8)
+			var late [][]string
+			for k := 0; k < w && budget > 1; k++ {
+				nm := pick()
+				if k >= 8 {
+					late = append(late, nm)
+				}
+				t := &rtree{name: nm}
+				par.kids = append(par.kids, t)
+				depth[t] = depth[par] + 1
+				all = append(all, t)
+				budget--
+			}
+			for _, nm := range late {
+				if budget < 2 || rng.Intn(2) == 0 {
+					continue
+				}
+				t := &rtree{name: nm, kids: []*rtree{{name: pick()}}}
+				par.kids = append(par.kids, t)
+				depth[t] = depth[par] + 1
+				depth[t.kids[0]] = depth[t] + 1
+				all = append(all, t)
+				budget -= 2
+			}
+		}
+	}
 	for budget > 0 {
 		par := all[rng.Intn(len(all))]
 		if rng.Intn(2) == 0 {
